@@ -1,6 +1,7 @@
 SPECIFICATION Spec
 CONSTANTS MaxFills = 3
   Weights <- W4
+  Twin = FALSE
   EdgeChoices <- EdgesThorough
 VIEW view
 INVARIANT TypeOK
